@@ -1165,7 +1165,7 @@ class FuncTranslator:
     def statement(self, p, d):
         pre = ''
         if self.stmt_hooks:
-            head = ' '.join(tk.text for tk in p.toks[p.i:p.i + 14])
+            head = ' '.join(tk.text for tk in p.toks[p.i:p.i + 24])
             post = ''
             for h in self.stmt_hooks:
                 if re.match(h[0], head):
